@@ -171,7 +171,7 @@ func (h *header) SetConnectionClose() {
 func (h *header) ResetConnectionClose() {
 	if h.connectionClose {
 		h.connectionClose = false
-		h.h = delAllArgs(h.h, HeaderConnection)
+		h.h = delAllArgsStable(h.h, HeaderConnection)
 	}
 }
 
@@ -238,7 +238,7 @@ func (h *ResponseHeader) SetContentLength(contentLength int) {
 	h.contentLength = contentLength
 	if contentLength >= 0 {
 		h.contentLengthBytes = AppendUint(h.contentLengthBytes[:0], contentLength)
-		h.h = delAllArgs(h.h, HeaderTransferEncoding)
+		h.h = delAllArgsStable(h.h, HeaderTransferEncoding)
 		return
 	} else if contentLength == -1 {
 		h.contentLengthBytes = h.contentLengthBytes[:0]
@@ -269,7 +269,7 @@ func (h *RequestHeader) SetContentLength(contentLength int) {
 	h.contentLength = contentLength
 	if contentLength >= 0 {
 		h.contentLengthBytes = AppendUint(h.contentLengthBytes[:0], contentLength)
-		h.h = delAllArgs(h.h, HeaderTransferEncoding)
+		h.h = delAllArgsStable(h.h, HeaderTransferEncoding)
 	} else {
 		h.contentLengthBytes = h.contentLengthBytes[:0]
 		h.h = setArgBytes(h.h, strTransferEncoding, strChunked, argsHasValue)
@@ -1362,7 +1362,7 @@ func (h *ResponseHeader) del(key []byte) {
 	case HeaderTrailer:
 		h.trailer = h.trailer[:0]
 	}
-	h.h = delAllArgs(h.h, b2s(key))
+	h.h = delAllArgsStable(h.h, b2s(key))
 }
 
 // Del deletes header with the given key.
@@ -1396,7 +1396,7 @@ func (h *RequestHeader) del(key []byte) {
 	case HeaderTrailer:
 		h.trailer = h.trailer[:0]
 	}
-	h.h = delAllArgs(h.h, b2s(key))
+	h.h = delAllArgsStable(h.h, b2s(key))
 }
 
 // setSpecialHeader handles special headers and return true when a header is processed.
@@ -1417,7 +1417,7 @@ func (h *ResponseHeader) setSpecialHeader(key, value []byte) bool {
 				h.contentLengthBytes = append(h.contentLengthBytes[:0], value...)
 				// Same as SetContentLength: never send Content-Length
 				// together with 'Transfer-Encoding: chunked'.
-				h.h = delAllArgs(h.h, HeaderTransferEncoding)
+				h.h = delAllArgsStable(h.h, HeaderTransferEncoding)
 			}
 			return true
 		case caseInsensitiveCompare(strContentEncoding, key):
@@ -1738,7 +1738,7 @@ func (h *ResponseHeader) DelClientCookieBytes(key []byte) {
 // Note that DelCookie doesn't remove the cookie from the client.
 // Use DelClientCookie instead.
 func (h *ResponseHeader) DelCookie(key string) {
-	h.cookies = delAllArgs(h.cookies, key)
+	h.cookies = delAllArgsStable(h.cookies, key)
 }
 
 // DelCookieBytes removes cookie under the given key from response header.
@@ -1752,7 +1752,7 @@ func (h *ResponseHeader) DelCookieBytes(key []byte) {
 // DelCookie removes cookie under the given key.
 func (h *RequestHeader) DelCookie(key string) {
 	h.collectCookies()
-	h.cookies = delAllArgs(h.cookies, key)
+	h.cookies = delAllArgsStable(h.cookies, key)
 }
 
 // DelCookieBytes removes cookie under the given key.
